@@ -3,9 +3,11 @@
    definition Render.rdraw / emit; its float32 instance (N32) is compared bit-for-bit with render.go and
    these theorems are about its instance over the reals (NR inj, where inj is any valuation of float32
    bit patterns with inj 0 = 0).  The SVG meaning of the operations is spec/SvgPath.v.
-   The float32 rounding error between the two instances is not bounded by a theorem. *)
-From Coq Require Import Reals ZArith Bool List.
-From IVG Require Import SF NumCodec Color Calls Render SvgPath GeomR.
+   The float32 rounding error between the two instances is bounded for the viewBox-to-pixel map of a point
+   (abs_point_error, from the soft-float's rounding specification); it is not bounded for whole paths
+   (relative operations accumulate through the pen). *)
+From Coq Require Import Reals ZArith Bool List Lia Lra.
+From IVG Require Import SF NumCodec Color Calls Render SvgPath GeomR SFReal FErr MapF.
 Import ListNotations.
 Local Open Scope R_scope.
 
@@ -41,6 +43,37 @@ Theorem amap_corners : forall (inj : f32 -> R) (s : SR) vb pal,
   Amap s1 (inj (vmaxx vb), inj (vmaxy vb)) = (IZR (r_w s), IZR (r_h s)).
 Proof. exact GeomR.amap_corners. Qed.
 Print Assumptions amap_corners.
+
+(* float32 against real arithmetic for the affine map itself: for a viewBox whose sides are at least 2^-40, corners and
+   point of magnitude at most 2^40 and a target of at most 2^24 pixels, the pixel coordinates computed in float32
+   (scale = float32(w) / (max - min), bias = -min, scale * (x + bias)) are finite and within 7 * 2^-24 relative error
+   plus 2^-150 of the exact affine image (FErr.V is the real value of a float32 bit pattern, FErr.gf "finite bit pattern") *)
+Theorem abs_point_error : forall (s : rstate f32) (sR : rstate R) (vb : viewbox) (pal : list rgba) (x y : f32),
+  r_w sR = r_w s -> r_h sR = r_h s -> (1 <= r_w s <= 2 ^ 24)%Z -> (1 <= r_h s <= 2 ^ 24)%Z ->
+  gf (vminx vb) /\ gf (vminy vb) /\ gf (vmaxx vb) /\ gf (vmaxy vb) -> gf x /\ gf y ->
+  / P40 <= V (vmaxx vb) - V (vminx vb) -> / P40 <= V (vmaxy vb) - V (vminy vb) ->
+  Rabs (V (vminx vb)) <= P40 /\ Rabs (V (vminy vb)) <= P40 /\ Rabs (V (vmaxx vb)) <= P40 /\ Rabs (V (vmaxy vb)) <= P40 ->
+  Rabs (V x) <= P40 /\ Rabs (V y) <= P40 ->
+  let s1 := rreset N32 s vb pal in let s1R := rreset (NR V) sR vb pal in
+  let px := absX N32 s1 x in let py := absY N32 s1 y in
+  let ex := absX (NR V) s1R (V x) in let ey := absY (NR V) s1R (V y) in
+  gf px /\ gf py /\
+  Rabs (V px - ex) <= 7 * u32 * Rabs ex + / IZR (2 ^ 150) /\
+  Rabs (V py - ey) <= 7 * u32 * Rabs ey + / IZR (2 ^ 150).
+Proof. exact MapF.abs_point_error. Qed.
+Print Assumptions abs_point_error.
+
+(* non-vacuity: 1.0 and -32.0 are finite bit patterns with the expected values *)
+Example ex_gf : gf 1065353216%Z /\ V 1065353216%Z = 1 /\ gf 3254779904%Z /\ V 3254779904%Z = -32.
+Proof.
+  assert (D1 : decode F32 1065353216 = FFin false 8388608 (-23)) by (vm_compute; reflexivity).
+  assert (D2 : decode F32 3254779904 = FFin true 8388608 (-18)) by (vm_compute; reflexivity).
+  repeat split; try (unfold wf32; lia).
+  - exists false, 8388608%Z, (-23)%Z. exact D1.
+  - unfold V. rewrite (B2R_fin _ _ _ _ _ D1). unfold b2. cbn. lra.
+  - exists true, 8388608%Z, (-18)%Z. exact D2.
+  - unfold V. rewrite (B2R_fin _ _ _ _ _ D2). unfold b2. cbn. lra.
+Qed.
 
 Example ex_ops : forallb (fun o => is_path_op (fst o)) [(opL, [0%Z; 0%Z]); (opt, [0%Z; 0%Z]); (opy, [0%Z; 0%Z])] = true.
 Proof. reflexivity. Qed.
